@@ -22,15 +22,20 @@
 (***************************************************************************)
 EXTENDS Integers, Sequences, SequencesExt, FiniteSets, TLC, Json
 
-CONSTANTS NB,        \* number of blocks
-          Pads,      \* paddings (code units) a block may have
+CONSTANTS NB,        \* number of blocks ("grid" family)
+          Pads,      \* paddings (code units) a block may have ("grid"); the window of the big padding ("cascade")
           Scale,     \* 1: operands in bytes (<= 3.9), 2: in code units (3.10)
+          Family,    \* "grid": every graph over NB blocks;  "cascade": chains of dependent growths (below)
+          MaxK,      \* "cascade": number of chained jumps, 1..MaxK
           Emit
 
 EN == INSTANCE Encode
 
 VARIABLES pad, jmp, args, pass, changed
 vars == <<pad, jmp, args, pass, changed>>
+
+\* The number of blocks of the current graph (a "cascade" of K jumps has 2K + 1 blocks)
+NBlk == Cardinality(DOMAIN pad)
 
 \* jmp[b] = <<kind, target>>, kind "none" | "abs" | "rel"
 JumpChoices(b) == {<<"none", 0>>} \cup {<<"abs", t>> : t \in 0..(NB - 1)} \cup {<<"rel", t>> : t \in (b + 1)..(NB - 1)}
@@ -43,19 +48,28 @@ BlockInstrs(b) == (IF pad[b] > 0 THEN <<PadIns(pad[b])>> ELSE <<>>)
                   \o (IF jmp[b][1] # "none" THEN <<JumpIns(jmp[b])>> ELSE <<>>)
 
 \* every block needs at least one instruction
-NonEmpty == \A b \in 0..(NB - 1) : pad[b] > 0 \/ jmp[b][1] # "none"
+NonEmpty == \A b \in DOMAIN pad : pad[b] > 0 \/ jmp[b][1] # "none"
 
 Data ==
-    LET per == [b \in 1..NB |-> BlockInstrs(b - 1)]
-        starts == [b \in 1..NB |-> FoldLeft(LAMBDA a, x: a + Len(x), 0, SubSeq(per, 1, b - 1))]
+    LET per == [b \in 1..NBlk |-> BlockInstrs(b - 1)]
+        starts == [b \in 1..NBlk |-> FoldLeft(LAMBDA a, x: a + Len(x), 0, SubSeq(per, 1, b - 1))]
     IN [instrs |-> EN!Flatten(per), block_starts |-> starts]
 
 InitArgs == [i \in DOMAIN Data.instrs |-> IF Data.instrs[i][2] = "J" THEN 1 ELSE 0]
 
+\* "cascade": K absolute jumps at the very start (to the K one-unit blocks at the end, farthest
+\* first), then one block of P plain units.  When P puts the last target just beyond what one
+\* operand byte reaches, only the first jump needs two units at first; its growth pushes the next
+\* target over the boundary, and so on: one more pass of the loop per jump.
+CascadePad(K, P) == [b \in 0..(2 * K) |-> IF b < K THEN 0 ELSE IF b = K THEN P ELSE 1]
+CascadeJmp(K) == [b \in 0..(2 * K) |-> IF b < K THEN <<"abs", 2 * K - b>> ELSE <<"none", 0>>]
+
 Init ==
-    /\ pad \in [0..(NB - 1) -> Pads]
-    /\ jmp \in [0..(NB - 1) -> UNION {JumpChoices(b) : b \in 0..(NB - 1)}]
-    /\ \A b \in 0..(NB - 1) : jmp[b] \in JumpChoices(b)
+    /\ IF Family = "grid"
+       THEN /\ pad \in [0..(NB - 1) -> Pads]
+            /\ jmp \in [0..(NB - 1) -> UNION {JumpChoices(b) : b \in 0..(NB - 1)}]
+            /\ \A b \in 0..(NB - 1) : jmp[b] \in JumpChoices(b)
+       ELSE \E K \in 1..MaxK, P \in Pads : pad = CascadePad(K, P) /\ jmp = CascadeJmp(K)
     /\ NonEmpty
     /\ args = InitArgs
     /\ pass = 0
@@ -73,7 +87,7 @@ Next == RelaxStep
 Spec == Init /\ [][Next]_vars /\ WF_vars(RelaxStep)
 
 ----------------------------------------------------------------------------
-NJumps == Cardinality({b \in 0..(NB - 1) : jmp[b][1] # "none"})
+NJumps == Cardinality({b \in DOMAIN pad : jmp[b][1] # "none"})
 
 Terminates == <>(~changed)
 
@@ -99,6 +113,6 @@ JumpsLand ==
 \* replay output: one line per graph, with the number of passes and the final operands
 EmitDone ==
     ((~changed) /\ Emit) =>
-        PrintT("@@" \o ToJson(<<[b \in 1..NB |-> pad[b - 1]], [b \in 1..NB |-> jmp[b - 1]], pass,
+        PrintT("@@" \o ToJson(<<[b \in 1..NBlk |-> pad[b - 1]], [b \in 1..NBlk |-> jmp[b - 1]], pass,
                                EN!JumpArgs(Data, args)>>) \o "@@")
 =============================================================================
